@@ -105,15 +105,17 @@ TReset ==
           x == [ent |-> [d \in dirs |-> LsOf(DirRec(ln, d))],
                 ty |-> [i \in al |-> InoRec(ln, i)[2]], links |-> [i \in al |-> InoRec(ln, i)[3]],
                 dd |-> [d \in dirs |-> DirRec(ln, d).dd], ea |-> [i \in al |-> InoRec(ln, i)[5]],
-                blk |-> [i \in al |-> InoRec(ln, i)[4]], fb |-> ln.fb, leak |-> 0,
+                blk |-> [i \in al |-> InoRec(ln, i)[4]], fb |-> ln.fb, leak |-> 0, zomb |-> {},
                 skew |-> [i \in al |-> 0], taint |-> {}, sat |-> {}]
       IN /\ s' = x
          /\ L' = [d \in dirs |-> LayOf(DirRec(ln, d))]
-         /\ g' = [bs |-> ln.bs, tail |-> ln.tail, cs |-> ln.cs, nlim |-> (ln.bs - 8 - (IF ln.tail = 12 THEN 8 ELSE 0)) \div 8, maxlv |-> ln.maxlv]
+         /\ g' = LET g0 == [bs |-> ln.bs, tail |-> ln.tail, cs |-> ln.cs] IN
+                 [bs |-> ln.bs, tail |-> ln.tail, cs |-> ln.cs, rlim |-> RootLimit(g0), nlim |-> NodeLimit(g0), maxlv |-> ln.maxlv]
          /\ NT' = ln.names
-         /\ K' = [blk |-> ln.fb + SumBlk(x), ino |-> ln.fi + Cardinality(al), inline |-> (ln.inline = 1)]
-         /\ Consistent(x)                                  \* a fresh mke2fs filesystem
-         /\ \A d \in dirs : DirRec(ln, d).ok = 1
+         /\ K' = [blk |-> ln.fb + SumBlk(x), ino |-> ln.fi + Cardinality(al), inline |-> (ln.inline = 1), dirindex |-> (ln.dirindex = 1)]
+         /\ Consistent(x)                                  \* a fresh mke2fs filesystem (plus, for the large-directory
+         /\ \A d \in dirs : DirRec(ln, d).ok = 1           \* behaviours, a prepared directory holding exactly the names ln.want)
+         /\ \A w \in ToSet(ln.want) : w[1] \in dirs /\ DOMAIN x.ent[w[1]] = ToSet(w[2]) /\ Len(DirRec(ln, w[1]).ls) = Len(w[2])
 
 TStep ==
    /\ IsEvent("step")
@@ -127,7 +129,19 @@ TStep ==
    /\ UNCHANGED <<g, NT, K>>
 
 \* e2fsck -fyD: issued on consistent filesystems only; must find nothing to repair; namespace unchanged; every
-\* directory may get a new layout, which is adopted after checking it is well formed and holds exactly the model's names
+\* directory is written anew and must have exactly the form HTree.tla states for a rebuilt directory: an inline directory
+\* is left alone; the others become an htree (leaf blocks filled in hash order, the index calculate_tree derives from the
+\* number of leaves: one, two or three levels) or a packed linear directory, as RebuildIndexes decides from the old layout.
+\* lost+found keeps the blocks it had (as empty blocks) when the rebuilt directory is shorter.
+LostFound == IF 1 \in DOMAIN s.ent[Root] THEN s.ent[Root][1][1] ELSE 0       \* name 1 is "lost+found"
+RebuiltOK(d, pre, post) ==
+   IF pre.inl THEN post = pre
+   ELSE LET self == d  par == s.dd[d]  ftd == Ft(FTDIR)
+            Form(x) == IF RebuildIndexes(pre, g, K.dirindex) THEN IsRebuiltDx(post, self, par, ftd, NT, g, x)
+                       ELSE IsRebuiltLinear(post, self, par, ftd, g, x)
+        IN IF d # LostFound THEN Form(0)
+           ELSE /\ Len(post.b) >= Len(pre.b)
+                /\ \E x \in 0..(Len(post.b) - 1) : (x > 0 => Len(post.b) = Len(pre.b)) /\ Form(x)
 TFsckD ==
    /\ IsEvent("fsckD")
    /\ LET ln == Tr[l]
@@ -137,6 +151,7 @@ TFsckD ==
          /\ ln.rc = 0
          /\ InodesAgree(ln, s, x1)
          /\ DirsAgree(ln, s, x1, L, L1, TRUE)
+         /\ \A d \in DOMAIN s.ent : RebuiltOK(d, L[d], L1[d])
          /\ Conserved(ln, x1)
          /\ s' = x1 /\ L' = L1
    /\ UNCHANGED <<g, NT, K>>
@@ -148,9 +163,10 @@ TFsckN ==
    /\ Tr[l].rc \in {0, 4}
    /\ UNCHANGED <<s, L, g, NT, K>>
 
-TraceInit == /\ l = 1 /\ s = [ent |-> <<>>, ty |-> <<>>, links |-> <<>>, dd |-> <<>>, ea |-> <<>>, blk |-> <<>>, fb |-> 0, leak |-> 0,
+TraceInit == /\ l = 1 /\ s = [ent |-> <<>>, ty |-> <<>>, links |-> <<>>, dd |-> <<>>, ea |-> <<>>, blk |-> <<>>, fb |-> 0, leak |-> 0, zomb |-> {},
                                skew |-> <<>>, taint |-> {}, sat |-> {}]
-             /\ L = <<>> /\ g = [bs |-> 1024, tail |-> 0, cs |-> 0, nlim |-> 0, maxlv |-> 2] /\ NT = <<>> /\ K = [blk |-> 0, ino |-> 0, inline |-> FALSE]
+             /\ L = <<>> /\ g = [bs |-> 1024, tail |-> 0, cs |-> 0, rlim |-> 0, nlim |-> 0, maxlv |-> 2] /\ NT = <<>>
+             /\ K = [blk |-> 0, ino |-> 0, inline |-> FALSE, dirindex |-> FALSE]
 TraceNext == TReset \/ TStep \/ TFsckD \/ TFsckN
 TraceSpec == TraceInit /\ [][TraceNext]_tvars
 TraceAccepted == TLCGet("stats").diameter - 1 = Len(Tr)
@@ -182,7 +198,7 @@ InvTypeOK == Started => TypeOK(s)
 InvLinksRule == Started => LinksRule(s)
 InvNoFreeReferenced == Started => NoFreeReferenced(s)
 InvBalancedIsConsistent == Started => BalancedIsConsistent(s)
-InvNoLeak == Started => s.leak = 0
+InvNoLeak == Started => s.leak = 0 /\ s.zomb = {}
 \* RecLenChainCoversBlock /\ live names = model, for every directory; htree: sorted index, hash ranges partition
 InvLayout == Started => \A d \in DOMAIN s.ent :
                 /\ d \in DOMAIN L
